@@ -1794,6 +1794,9 @@ func exec(c px.Context, op string, args []sx.Sexp) core.Result {
 	if op == "fnover" {
 		return execFnOver(c, args)
 	}
+	if op == "nested" {
+		return execNested(c, args)
+	}
 	deco := op == "objd"
 	if deco {
 		op = "obj"
